@@ -220,7 +220,7 @@
         std::mem::forget(r);
     }
 
-// @h id=H10.1-i$i prop=C10,C16,C02 rep="i:0-15" quick="0,5,10" quick_C02="0,5" quick_C10="0,5" cap=900 stubs="TileManager::calculate_hash -> injective packing of length and bytes (real aHash: H10.1r, injectivity on 1-byte contents: H10.h)" mem=20 unwind=8 bounds="logical content {a: [ca], b: [cb]}; id pair (i%4) of {(5,6) adjacent, (6,5) adjacent given in descending order, (5,9) gap, (2^63,3) far apart/top bit} concrete per instance (symbolic ids make the length of the vector handed to std's sort non-constant for symex: no result in 40 min); ca, cb, x any byte; history (i/4) of {0: add a, add b; 1: add b, add a; 2: add a [x], add b, replace a; 3: add a, add b [x], remove b, add b}; every map iteration inside finish() runs in an unconstrained order"
+// @h id=H10.1-i$i prop=C10,C16,C02 rep="i:0-15" quick="0,5,10" quick_C02="0" quick_C10="0,5" cap=900 stubs="TileManager::calculate_hash -> injective packing of length and bytes (real aHash: H10.1r, injectivity on 1-byte contents: H10.h)" mem=20 unwind=8 bounds="logical content {a: [ca], b: [cb]}; id pair (i%4) of {(5,6) adjacent, (6,5) adjacent given in descending order, (5,9) gap, (2^63,3) far apart/top bit} concrete per instance (symbolic ids make the length of the vector handed to std's sort non-constant for symex: no result in 40 min); ca, cb, x any byte; history (i/4) of {0: add a, add b; 1: add b, add a; 2: add a [x], add b, replace a; 3: add a, add b [x], remove b, add b}; every map iteration inside finish() runs in an unconstrained order"
     /// finish() is a canonical function of the logical content: ids sorted, each distinct content stored once, adjacent equal tiles merged into one run, counters exact - whatever history produced the content and whatever order the hash maps iterate in
     #[kani::proof]
     #[kani::stub(crate::tile_manager::TileManager::calculate_hash, stub_hash)]
